@@ -444,7 +444,7 @@ def write_evidence(ctx, proof, cov, wall, violations, assumptions_extra=()):
             "%s: %s" % (k, v) for k, v in sorted(proof.get("assumptions", {}).items())),
         "extraction: ExtrOcamlBasic only (bool/option/list/prod/unit/sumbool mapped to OCaml's), no Extract Constant; OCaml 4.13.1 ocamlopt; driver ocaml/%s_driver.ml + ocaml/conv.ml.inc" % pid.lower(),
         "correspondence harness harness/%s_impl.cpp compiled against /repo/include of the current tree (g++ -std=c++17, ASan+UBSan) and tools/props/%s.py (generator, canonicaliser, diff)" % (pid.lower(), pid.lower()),
-        "translator tools/translate.py: coq/Gen/Constants.v (values printed by harness/gen_constants.cpp compiled against /repo/include) and coq/Gen/{RingProto,QueueShape,PoolShape,ConnectShape,WheelShape,CloseShape}.v (event sequences of the named functions read off clang's JSON AST) are regenerated on every run (status per file: coverage.translator); the theorems of coq/%s/GenTie.v (if present; coverage.tie_theorems) tie the model to them" % pid,
+        "translator tools/translate.py: coq/Gen/Constants.v (values printed by harness/gen_constants.cpp compiled against /repo/include) and coq/Gen/{RingProto,QueueShape,PoolShape,ConnectShape,WheelShape,CloseShape,TeardownShape}.v (event sequences of the named functions read off clang's JSON AST) are regenerated on every run (status per file: coverage.translator); the theorems of coq/%s/GenTie.v (if present; coverage.tie_theorems) tie the model to them" % pid,
     ] + list(ctx.get("trusted_extra", []))
     coverage = {
         "obligations": proof["obligations"],
